@@ -1076,6 +1076,20 @@ impl Runner {
             tries.push(("withdraw", vec![self.w.ix_withdraw(*acct, usr.auth, *bi, usr.tokens[*bi], 1, None)]));
             tries.push(("repay", vec![self.w.ix_repay(*acct, usr.auth, *bi, usr.tokens[*bi], 1, None)]));
         }
+        // an account that was migrated (transferred) moves its positions exactly once: a second transfer of it - with the
+        // keypair instruction or the PDA one - must be refused
+        let migrated = read_macct(&self.w.vm, acct).map(|a| a.migrated_to != Pubkey::default()).unwrap_or(false);
+        if migrated {
+            let new = kp("macct_second_transfer", self.steps as u64);
+            let mut ix = self.w.ix_transfer_account(*acct, new, usr.auth, usr.auth);
+            for m in ix.accounts.iter_mut() {
+                if m.pubkey == new {
+                    m.is_signer = true;
+                }
+            }
+            tries.push(("second-transfer", vec![ix]));
+            tries.push(("second-transfer-pda", vec![self.w.ix_transfer_account_pda(*acct, usr.auth, usr.auth, 7 + (self.steps % 1000) as u16)]));
+        }
         for (name, ixs) in tries {
             let mut vm = self.w.vm.clone();
             let r = vm.exec_tx(&ixs);
